@@ -35,6 +35,7 @@ def energy_case(draw, tier="quick"):
     dxc = dxr * draw(st.sampled_from([1.0, 1.0, 0.6, 2.2]))
     du = (wl * z * os_ / (dxr * N[0]), wl * z * os_ / (dxc * N[1]))
     amp, opd, mask = draw(gen.aperture(shape, wl, max_waves=2.0, min_samples=3))
+    amp = amp * draw(gen.scales())
     power = draw(gen.pos_log(1e-6, 1e6))
     # nested windows (in native samples), strictly inside the period
     full = (N[0] // os_, N[1] // os_)
